@@ -106,6 +106,9 @@ func (s *Solver) send(txt string) {
 		if s.hung {
 			panic(engineError{"solver did not answer within 3x its per-query limit + 20 s and was killed (reported inconclusive, never success)"})
 		}
+		if s.kind == "cvc5" {
+			panic(engineError{"cvc5 exited after exceeding its per-query time limit on an earlier query; the remaining paths are inconclusive"})
+		}
 		panic(engineError{fmt.Sprintf("solver write: %v", err)})
 	}
 }
